@@ -268,10 +268,19 @@ func (g *c16Gen) wellTyped(f c16Field, strict bool, plan *c16Plan) *doc.Node {
 				return doc.F(1.5)
 			}
 		}
+		if g.r.IntN(8) == 0 {
+			return doc.S("") // a key that is present with the empty string is present
+		}
 		return str()
 	case "int":
+		if g.r.IntN(8) == 0 {
+			return doc.I(0)
+		}
 		return doc.I(int64(g.r.IntN(1000)) - 500)
 	case "float":
+		if g.r.IntN(8) == 0 {
+			return doc.F(0)
+		}
 		return doc.F(float64(g.r.IntN(100)) + 0.25)
 	case "bool":
 		return doc.B(g.r.IntN(2) == 0)
@@ -510,6 +519,14 @@ func c16Expect(t *c16Type, dst reflect.Value, m *doc.Node, plan *c16Plan, prepop
 					exp.Map = append(exp.Map, doc.P(f.Name, c16Expect(f.Sub, inner, src, plan.sub[f.Name], prepopulate)))
 				}
 			default:
+				if prepopulate {
+					switch f.Kind {
+					case "string", "int", "float", "bool", "any":
+						// a stale value in a field the document addresses: it is overwritten, also by "", 0 or false
+						sv, _ := c16Sentinel(f)
+						fv.Set(sv)
+					}
+				}
 				exp.Map = append(exp.Map, doc.P(f.Name, c16Conv(f, src)))
 			}
 		}
